@@ -84,8 +84,11 @@ func shape(body *ast.BlockStmt) []string {
 				pre = "defer "
 			}
 			switch {
-			case l == "Lock" || l == "Unlock" || l == "RLock" || l == "RUnlock":
+			case l == "Lock" || l == "Unlock" || l == "RLock" || l == "RUnlock" || l == "TryLock" || l == "TryRLock":
 				toks = append(toks, pre+l)
+			case strings.HasPrefix(name, "atomic."):
+				// atomic read-modify-write / load / store on shared words: in source order, like mutex operations
+				toks = append(toks, "atomic:"+l)
 			case name == "close":
 				if len(x.Args) == 1 {
 					chans = append(chans, "close:"+last(sel(x.Args[0])))
